@@ -146,9 +146,13 @@ func (sp *Specs) parseSpecFile(path, pkg string) error {
 		switch {
 		case strings.HasPrefix(line, "func "), strings.HasPrefix(line, "iface "):
 			isIface := strings.HasPrefix(line, "iface ")
+			isFuncType := strings.HasPrefix(line, "func type ")
 			hdr := line
 			if isIface {
 				hdr = "func " + strings.TrimPrefix(line, "iface ")
+			}
+			if isFuncType {
+				hdr = "func " + strings.TrimPrefix(line, "func type ")
 			}
 			c, err := parseHeader(hdr, pkg)
 			if err != nil {
@@ -157,6 +161,10 @@ func (sp *Specs) parseSpecFile(path, pkg string) error {
 			c.Iface = isIface
 			if isIface {
 				c.Key = "iface:" + c.Key
+			}
+			if isFuncType {
+				c.Key = "functype:" + c.Key
+				c.Trusted = true
 			}
 			c.File, c.Line = path, lineNo
 			if _, dup := sp.Funcs[c.Key]; dup {
